@@ -48,6 +48,15 @@ CHECKS["C16"] = dict(category="exploration",
            "<=16 characters unless long headers are allowed, with original_id remembered; gene names unique or the record rejected.",
       note="Trusted: the illegal character set is the one documented in fix_record_name_id. cpus=1 (the parallel path is C18's).",
       design="3/C16")
+CHECKS["C20"] = dict(category="fault_enumeration",
+      technique="exhaustive fault enumeration (records x modules x fault position x 16 fault kinds x target) and exhaustive directory-content subsets, plus Hypothesis multi-fault/random-tree cases, oracle = bytes/listing unchanged and error raised",
+      text="Every position of the R x M per-record per-module JSON conversions (quick R<=2,M<=3; thorough R<=4,M<=5) is failed with each of "
+           "16 fault kinds (to_json raising, values that only fail inside json.dumps, bad record annotations...) for write_to_file and "
+           "dump_records over a pre-existing file: the bytes must be unchanged and an exception must reach the caller. Every subset of 16 "
+           "directory entry classes x run mode x output-dir given/derived x cwd is enumerated for prepare_output_directory; a stubbed "
+           "run_antismash pipeline keeps the real control flow. Exhaustive within those bounds.",
+      note="Fault model: exceptions during conversion (statement's model); no process kill between open() and write(). Any exception counts as 'reported'/'refused'.",
+      design="3/C20")
 NOT_YET = {}
 
 def main():
